@@ -47,15 +47,17 @@ func (vm *VM) runFunc(fn *Function, vars []reflect.Value) error {
 		// p has previous panics if it is the panic of a function called by
 		// a native function.
 		last := p
+		numPanics := 1
 		for last.next != nil {
 			last = last.next
+			numPanics++
 		}
 		last.next = vm.panic
 		vm.panic = p
 		if len(vm.calls) == 0 {
 			break
 		}
-		vm.calls = append(vm.calls, callFrame{cl: callable{fn: vm.fn}, renderer: vm.renderer, fp: vm.fp, status: panicked})
+		vm.calls = append(vm.calls, callFrame{cl: callable{fn: vm.fn}, renderer: vm.renderer, fp: vm.fp, status: panicked, panics: numPanics})
 		vm.fn = nil
 	}
 	if stop != nil {
